@@ -478,6 +478,20 @@ def app_case(role, flavour, name):
                 extra[meth] = ('special', special)
                 off = {0} if meth == 'on_metadata_push' else {sid}
                 frames = [raw]
+            elif name.startswith('returns-'):
+                # the handler returns something that is not what the engine expects (None, a number, a tuple of the wrong shape)
+                _, what, meth = name.split('-', 2)
+                junk = {'none': None, 'junk': 42, 'shorttuple': (None,)}[what]
+                extra[meth] = ('special', lambda h, p: junk)
+                raw = {'request_response': R.enc_request(R.REQUEST_RESPONSE, sid, b'boom'),
+                       'request_stream': R.enc_request(R.REQUEST_STREAM, sid, b'boom', n=2),
+                       'request_channel': R.enc_request(R.REQUEST_CHANNEL, sid, b'boom', n=2)}[meth]
+                frames, off = [raw], {sid}
+            elif name == 'on_error-raises':
+                def bad_on_error(h, p):
+                    raise make_exc(shape)
+                extra['on_error'] = ('always', bad_on_error)
+                frames, off = [R.enc_error(0, 0x201, b'boom from the peer')], {0}
             elif name == 'future-fails':
                 extra['request_response'] = ('special', lambda h, p: create_error_future(make_exc(shape) if shape != 'text' else RuntimeError('late failure')))
                 frames, off = [R.enc_request(R.REQUEST_RESPONSE, sid, b'boom')], {sid}
@@ -576,8 +590,11 @@ def app_case(role, flavour, name):
             b_ = Bench('server', flavour)
             # install the special behaviours on top of the bench's default ones
             h = b_.s.handler
-            for meth, (_, special) in extra.items():
+            for meth, (kind_, special) in extra.items():
                 orig = h.beh.get(meth)
+                if kind_ == 'always':
+                    h.beh[meth] = special
+                    continue
 
                 def beh(hh, p, special=special, orig=orig):
                     d = bytes(p.data or b'') or bytes(p.metadata or b'')
@@ -636,7 +653,9 @@ APP_CASES_SERVER = (['handler-%s-raises%s' % (m, a) for m in ('request_response'
                        'channel-subscriber-raises-C', 'channel-subscriber-raises-E']
                     + ['router-raises-%s' % m for m in ('request_response', 'request_stream', 'request_channel', 'request_fire_and_forget', 'on_metadata_push')]
                     + ['%s-%s' % (a, wh) for a in ('rx3', 'rx4') for wh in ('observable-errors-at-once', 'observable-errors-after-one', 'response-errors')]
-                    + ['publisher-errors']
+                    + ['publisher-errors', 'on_error-raises']
+                    + ['returns-%s-%s' % (wh, m) for wh in ('none', 'junk') for m in ('request_response', 'request_stream', 'request_channel')]
+                    + ['returns-shorttuple-request_channel']
                     + ['%s@%s' % (c, sh) for sh in EXC_SHAPES for c in ('handler-request_response-raises', 'handler-request_stream-raises-after-await',
                                                                          'handler-request_channel-raises', 'handler-request_fire_and_forget-raises',
                                                                          'handler-on_metadata_push-raises-after-await', 'future-fails', 'publisher-errors')])
